@@ -7,7 +7,7 @@ unrevoked identity come from a most recent self-signature; removed identities ar
 reported for exactly the revoked component; the public twin mirrors the key."""
 from .. import harness, certmachine
 
-RULE = ('Hypothesis draws histories (lists of up to 10 / 30 operations, interpreted modulo the current state) over two keys of 6 algorithms: add identity '
+RULE = ('Hypothesis draws histories (lists of up to 10 / 30 operations, interpreted modulo the current state) over two keys of 6 algorithms, each starting as a bare pooled secret key or as a complete foreign-made secret key (non-canonical hashed areas, ECDH subkeys with non-default KDF parameters): add identity '
         '(6 names incl. substring pairs, UTF-8; 5 flag sets x 4 preference sets x primary mark x key expiry; clock steps 0/0/1 s so ties occur), add photo, add subkey '
         '(7 kinds), re-certify, third-party certify (exportable unset/true/false), revoke identity/subkey/key, re-bind, designated revoker, remove identity, protect, '
         'unlock-and-sign, derive and keep a public twin, copy (continue on the copy), export/import binary or armored (continue on the import); the invariants run after '
@@ -20,7 +20,7 @@ ASSUMPTIONS = ['on a creation-time tie between self-signatures either tied value
 def classify(rec, case, res, applied):
     names = tuple(applied)
     mid = any(n in ('recert', 'revoke_uid', 'revoke_sub', 'revoke_key', 'export_import', 'copy') for n in names[:-1])
-    rec.case(('hist',) + names, bool(mid), ['len/%d' % min(len(names), 12)] + ['op/' + n for n in set(names)], {'keys': case['kids'], 'applied_operations': list(names)})
+    rec.case(('hist', 'foreign' if case.get('start') else 'bare') + names, bool(mid), ['len/%d' % min(len(names), 12)] + ['op/' + n for n in set(names)] + ['start/foreign' if case.get('start') else 'start/bare'], {'keys': case['kids'], 'applied_operations': list(names)})
     for clause, cause, det in res:
         rec.finding(clause, cause, case, det)
 
@@ -51,6 +51,9 @@ def systematic(arg):
             if n % nparts != part:
                 continue
             case = {'kids': ['ed25519-0', 'ecdsa-p256-0'], 'ops': [['add_uid', 0, 3, 0, 0, 0, 0, 0]] + [ALPHA[i] for i in seq]}
+            if n % 3 == 0:
+                # every third sequence starts from a key written by another implementation (see certmachine.QUIRKS / FOREIGN_SUBS)
+                case['start'] = [[4, [n % 7], n % 4], None]
             res, applied = certmachine.run_ops(case, certmachine.inv_c15)
             classify(rec, case, res, applied)
     rec.exhaustive['all sequences of length <= %d over a 9-operation alphabet' % L] = True
